@@ -27,6 +27,9 @@
 (*  c, s, n1, o        line: centre, pixel scale, 1D length and origin     *)
 (*  R, pt              radial minimum and exact points relative to the     *)
 (*                     profile centre (units)                              *)
+(*  tiny               per point: TRUE for a coordinate eps*(dy,dx) a hair *)
+(*                     away from the centre (eps far below the unit); its  *)
+(*                     pt entry is the integer direction (dy,dx)           *)
 (*  depth, flag, tcount   transform: nesting depth, is_transformed passed  *)
 (*                     by the caller, number of changes of frame performed *)
 (***************************************************************************)
@@ -86,15 +89,15 @@ Ray2DClause(r) ==
        /\ \E k0 \in {0, 1} : OnLine(PairsOf(r.q), Pair(r.c), ProjXs(Len(r.q), r.s, k0), r.S))
 
 \* ---- radial minimum ------------------------------------------------------------
-RelocShape(r) ==
-    Cl("one-received-point-per-coordinate",
-       /\ Len(r.pt) = NIn(r) /\ Len(r.q) = NIn(r) /\ Len(r.rid) = NIn(r) /\ IsPairSeq(r.pt) /\ IsPairSeq(r.q)
-       /\ r.R > 0 /\ r.S > 0 /\ r.R * r.S <= MaxRS)
 RelocGuard(r) == Len(r.pt) = NIn(r) /\ Len(r.q) = NIn(r) /\ Len(r.rid) = NIn(r) /\ IsPairSeq(r.pt) /\ IsPairSeq(r.q)
                  /\ r.R > 0 /\ r.S > 0 /\ r.R * r.S <= MaxRS
-FarIdx(r) == { k \in DOMAIN r.pt : Far(Pair(r.pt[k]), r.R) }
-CentreIdx(r) == { k \in DOMAIN r.pt : Pair(r.pt[k]) = <<0, 0>> }
-NearIdx(r) == DOMAIN r.pt \ (FarIdx(r) \cup CentreIdx(r))
+                 /\ Len(r.tiny) = NIn(r) /\ \A k \in DOMAIN r.tiny : r.tiny[k] => Pair(r.pt[k]) # <<0, 0>>
+RelocShape(r) == Cl("one-received-point-per-coordinate", RelocGuard(r))
+\* a tiny coordinate is never Far and never at the centre, whatever its direction vector looks like
+FarIdx(r) == { k \in DOMAIN r.pt : ~ r.tiny[k] /\ Far(Pair(r.pt[k]), r.R) }
+CentreIdx(r) == { k \in DOMAIN r.pt : ~ r.tiny[k] /\ Pair(r.pt[k]) = <<0, 0>> }
+TinyIdx(r) == { k \in DOMAIN r.pt : r.tiny[k] }
+NearIdx(r) == DOMAIN r.pt \ (FarIdx(r) \cup CentreIdx(r) \cup TinyIdx(r))
 RelocFar(r) ==
     Cl("coordinates-not-closer-than-minimum-reach-function-unchanged",
        RelocGuard(r) /\ \A k \in FarIdx(r) : r.rid[k] = k - 1)
@@ -104,7 +107,10 @@ RelocNear(r) ==
 RelocCentre(r) ==
     Cl("coordinate-at-the-centre-moved-to-exactly-the-minimum",
        RelocGuard(r) /\ \A k \in CentreIdx(r) : CentreToMinimum(Pair(r.q[k]), r.R, r.S))
-RelocClauses(r) == << RelocShape(r), RelocFar(r), RelocNear(r), RelocCentre(r) >>
+RelocTiny(r) ==
+    Cl("coordinate-a-hair-from-the-centre-moved-along-its-ray-to-exactly-the-minimum",
+       RelocGuard(r) /\ \A k \in TinyIdx(r) : TinyToMinimum(Pair(r.pt[k]), Pair(r.q[k]), r.R, r.S))
+RelocClauses(r) == << RelocShape(r), RelocFar(r), RelocNear(r), RelocCentre(r), RelocTiny(r) >>
 
 TransformClause(r) == Cl("frame-changed-exactly-once-unless-caller-did", r.tcount = TransformsMeant(r.flag))
 
@@ -138,6 +144,7 @@ FailedNames(r) == { Failed(r)[j].n : j \in DOMAIN Failed(r) }
 \* is the one about a coordinate exactly at the profile centre is "PointAtCentre"; anything else is named by its call
 Sig(r) ==
     IF FailedNames(r) = {"coordinate-at-the-centre-moved-to-exactly-the-minimum"} THEN "PointAtCentre"
+    ELSE IF FailedNames(r) = {"coordinate-a-hair-from-the-centre-moved-along-its-ray-to-exactly-the-minimum"} THEN "PointNearCentre"
     ELSE r.api \o "/" \o r.gk
 
 Want(r) ==
@@ -146,7 +153,7 @@ Want(r) ==
     THEN [radius2 |-> (r.R * r.S) * (r.R * r.S),
           got2 |-> [k \in DOMAIN r.q |-> IF InRange(Pair(r.q[k])) THEN Dot(Pair(r.q[k]), Pair(r.q[k])) ELSE -1],
           unchanged |-> [k \in DOMAIN r.pt |-> k \in FarIdx(r)],
-          at_centre |-> { k - 1 : k \in CentreIdx(r) }]
+          at_centre |-> { k - 1 : k \in CentreIdx(r) }, tiny |-> { k - 1 : k \in TinyIdx(r) }]
     ELSE IF r.api = "transform" THEN [tcount |-> TransformsMeant(r.flag), rid |-> Iota(NIn(r))]
     ELSE [kind |-> ContainerKind(r.api, r.gk, r.rk), elements |-> Elements(r.lst), entries |-> r.rid]
 
